@@ -364,27 +364,11 @@ func (in *icInst) check(c *mc.Ctx, o icOracle, prop string, path []string) {
 		// what the router hands to the pier of each chain for this block (the real
 		// InterchainRouter.GetInterchainTxWrappers over the replica's ledger) must be exactly
 		// the transactions the block's delivery set lists for that chain, in that order
-		rt, err := router.New(fix.Logger(), nil, r.L, nil, 1)
-		if err != nil {
-			panic(err)
-		}
 		for _, chain := range []string{fix.ChainA, fix.ChainB, fix.ChainC} {
-			ch := make(chan *pb.InterchainTxWrappers, 4)
-			if err := rt.GetInterchainTxWrappers(chain, st.height, st.height, ch); err != nil {
+			got, _, _, err := icRouterNotices(r, st.height, chain)
+			if err != nil {
 				bad("router-error", "router cannot produce the delivery of block %d for %s: %v", st.height, chain, err)
 				continue
-			}
-			var got []string
-			for ws := range ch {
-				for _, w := range ws.InterchainTxWrappers {
-					for _, vt := range w.Transactions {
-						if vt.Tx == nil {
-							got = append(got, "<nil>")
-						} else {
-							got = append(got, vt.Tx.GetHash().String())
-						}
-					}
-				}
 			}
 			var want []string
 			if sl := res.Meta.Counter[chain]; sl != nil {
@@ -400,6 +384,7 @@ func (in *icInst) check(c *mc.Ctx, o icOracle, prop string, path []string) {
 			}
 		}
 	}
+	icCheckRouterNotices(c, r, st.height, res.Meta, []string{fix.ChainA, fix.ChainB, fix.ChainC}, bad)
 	for i, e := range st.exp {
 		rc := res.Receipts[i]
 		switch e.verdict {
@@ -618,6 +603,64 @@ func runIC(c *mc.Ctx, prop string, o icOracle, opt fix.Options, name string, alp
 		}
 	}
 	b.Run()
+}
+
+// icRouterNotices runs the real InterchainRouter over the replica's ledger for block h and
+// returns, for one chain, what its pier is handed: the hashes of the delivered
+// transactions, the timeout notifications and the multi-transaction (group rollback)
+// notifications.
+func icRouterNotices(r *fix.Replica, h uint64, chain string) (txs, timeouts, multi []string, err error) {
+	rt, err := router.New(fix.Logger(), nil, r.L, nil, 1)
+	if err != nil {
+		panic(err)
+	}
+	ch := make(chan *pb.InterchainTxWrappers, 4)
+	if err := rt.GetInterchainTxWrappers(chain, h, h, ch); err != nil {
+		return nil, nil, nil, err
+	}
+	for ws := range ch {
+		for _, w := range ws.InterchainTxWrappers {
+			for _, vt := range w.Transactions {
+				if vt.Tx == nil {
+					txs = append(txs, "<nil>")
+				} else {
+					txs = append(txs, vt.Tx.GetHash().String())
+				}
+			}
+			timeouts = append(timeouts, w.TimeoutIbtps...)
+			multi = append(multi, w.MultiTxIbtps...)
+		}
+	}
+	return txs, timeouts, multi, nil
+}
+
+// icCheckRouterNotices: the timeout and group-rollback notifications the router hands to
+// each chain's pier for block h are exactly those the block's interchain meta lists.
+func icCheckRouterNotices(c *mc.Ctx, r *fix.Replica, h uint64, meta *pb.InterchainMeta, chains []string, bad func(sig, format string, a ...interface{})) {
+	if meta == nil {
+		return
+	}
+	for _, chain := range chains {
+		_, to, mu, err := icRouterNotices(r, h, chain)
+		if err != nil {
+			bad("router-error", "router cannot produce the delivery of block %d for %s: %v", h, chain, err)
+			continue
+		}
+		var wantTo, wantMu []string
+		if sl := meta.TimeoutCounter[chain]; sl != nil {
+			wantTo = sl.Slice
+		}
+		if sl := meta.MultiTxCounter[chain]; sl != nil {
+			wantMu = sl.Slice
+		}
+		c.Add("router_notices_checked", 1)
+		if strings.Join(to, ",") != strings.Join(wantTo, ",") {
+			bad("router-timeout-notices-differ", "for chain %s the router hands over the timeout notifications %v but block %d lists %v", chain, to, h, wantTo)
+		}
+		if strings.Join(mu, ",") != strings.Join(wantMu, ",") {
+			bad("router-group-rollback-notices-differ", "for chain %s the router hands over the group-rollback notifications %v but block %d lists %v", chain, mu, h, wantMu)
+		}
+	}
 }
 
 func icReplayer(prop string, o icOracle) func(c *mc.Ctx, r map[string]interface{}) {
